@@ -24,75 +24,171 @@ def _single_return(fi, assume=None):
     return ps
 
 
+def _atoms(r, prefix="a", splittable=False):
+    return tuple(((("%s%d" % (prefix, i), "%s%d" % (prefix.upper(), i), splittable),)) for i in range(r))
+
+
+def _labels(layout):
+    return tuple(tuple(a[0] for a in g) for g in layout)
+
+
 def reshape_rule(ctx):
+    """UT-RESHAPE on the shape-level evaluator (nfstatic/shapeeval.py): each helper is evaluated on
+    arguments of every small rank whose axes are distinct atoms, and the resulting layout -- which
+    original axes are merged into which result axis, in which order, and which were reduced away --
+    is compared with the documented behaviour.  How the helper spells it (torch.reshape / .view /
+    flatten / starred shapes / early returns / helpers) does not matter."""
+    from ..axes import Mismatch, Unknown, show
+    from ..shapeeval import ShapeEval, Sz, RaisesExc
+
     p = ctx.p
-    res = RuleResult("UT-RESHAPE", "reshape helpers are pure reshapes with the documented axis order; sum_except_batch reduces exactly the non-batch axes")
-    # repeat_rows: [R, ...] -> [R (x) n, ...]
-    fi = _fn(p, TU, "repeat_rows")
-    x, n = (a for a, _ in fi.params())
-    rets = _single_return(fi)
-    okr = False
-    for path in rets:
-        r = path.ret
-        txt = norm_text(r).replace(" ", "")
-        forms = (
-            "merge_leading_dims(%s.unsqueeze(1).expand(%s.shape[0],%s,*%s.shape[1:]),num_dims=2)" % (x, x, n, x),
-            "merge_leading_dims(%s.unsqueeze(1).expand(%s.shape[0],%s,*%s.shape[1:]),2)" % (x, x, n, x),
-            "%s.repeat_interleave(%s,dim=0)" % (x, n),
-            "torch.repeat_interleave(%s,%s,dim=0)" % (x, n),
-        )
-        if txt in forms:
-            okr = True
-        elif ".repeat(%s," % n in txt or "torch.tile" in txt or ".tile(" in txt:
-            res.fail(Finding("UT-RESHAPE", fi.module, fi.qualname, path.ret_node, "repeat_rows tiles the whole tensor (rows r0,r1,..,r0,r1,..) instead of repeating each row consecutively (r0,r0,..,r1,r1,..)"))
-            okr = None
-    if okr:
-        res.ok("repeat_rows: [R, ...] -> [R (x) n, ...] (each row repeated consecutively)")
-    elif okr is False:
-        res.fail(Finding("UT-RESHAPE", fi.module, fi.qualname, fi.node, "repeat_rows is not unsqueeze(1).expand(R, n, ...) merged row-major (nor repeat_interleave(n, dim=0))", construct="layout of repeat_rows"))
-    # merge_leading_dims / split_leading_dim: one reshape of the same row-major buffer
-    fi = _fn(p, TU, "merge_leading_dims")
-    x, k = (a for a, _ in fi.params())
-    okm = False
-    for path in _single_return(fi):
-        t = norm_text(path.ret).replace(" ", "")
-        if t in ("torch.reshape(%s,torch.Size([-1])+%s.shape[%s:])" % (x, x, k), "%s.reshape(torch.Size([-1])+%s.shape[%s:])" % (x, x, k), "%s.reshape(-1,*%s.shape[%s:])" % (x, x, k), "torch.reshape(%s,(-1,)+%s.shape[%s:])" % (x, x, k), "%s.flatten(0,%s-1)" % (x, k)):
-            okm = True
-    if okm:
-        res.ok("merge_leading_dims: reshape(x, (-1,) + x.shape[k:])")
-    else:
-        res.fail(Finding("UT-RESHAPE", fi.module, fi.qualname, fi.node, "merge_leading_dims must be the single reshape (-1,) + x.shape[num_dims:] (a permute or a different tail changes the element order)", construct="layout of merge_leading_dims"))
-    fi = _fn(p, TU, "split_leading_dim")
-    x, shp = (a for a, _ in fi.params())
-    oks = False
-    for path in _single_return(fi):
-        t = norm_text(path.ret).replace(" ", "")
-        if t in ("torch.reshape(%s,torch.Size(%s)+%s.shape[1:])" % (x, shp, x), "%s.reshape(torch.Size(%s)+%s.shape[1:])" % (x, shp, x), "%s.reshape(*%s,*%s.shape[1:])" % (x, shp, x), "torch.reshape(%s,tuple(%s)+%s.shape[1:])" % (x, shp, x), "%s.unflatten(0,%s)" % (x, shp)):
-            oks = True
-    if oks:
-        res.ok("split_leading_dim: reshape(x, shape + x.shape[1:]) (inverse of merge_leading_dims)")
-    else:
-        res.fail(Finding("UT-RESHAPE", fi.module, fi.qualname, fi.node, "split_leading_dim must be the single reshape shape + x.shape[1:]", construct="layout of split_leading_dim"))
-    # sum_except_batch
+    res = RuleResult("UT-RESHAPE", "reshape helpers are pure regroupings of the row-major element order with the documented axis order; sum_except_batch reduces exactly the non-batch axes and keeps the batch axes, for every rank")
+    thorough = getattr(ctx, "tier", "quick") == "thorough"
+    max_rank = 6 if thorough else 4
+    mod = p.modules.get(TU)
+    reported = set()
+
+    def fail(fi, key, msg):
+        if key in reported:
+            return
+        reported.add(key)
+        res.fail(Finding("UT-RESHAPE", fi.module, fi.qualname, fi.node, msg, construct=key))
+
+    def run(fi, env, pyenv):
+        ev = ShapeEval(env, pyenv, p, fi.module)
+        return ev, ev.run(fi)
+
+    # ---- sum_except_batch -----------------------------------------------------------------------
     fi = _fn(p, TU, "sum_except_batch")
-    x, nb = (a for a, _ in fi.params())
-    oksum = False
-    for path in _single_return(fi):
-        t = norm_text(path.ret).replace(" ", "")
-        for nd in ("%s.ndimension()" % x, "%s.dim()" % x, "%s.ndim" % x, "len(%s.shape)" % x):
-            if t in ("torch.sum(%s,dim=list(range(%s,%s)))" % (x, nb, nd), "%s.sum(dim=list(range(%s,%s)))" % (x, nb, nd), "torch.sum(%s,dim=tuple(range(%s,%s)))" % (x, nb, nd), "%s.sum(dim=tuple(range(%s,%s)))" % (x, nb, nd), "torch.sum(%s,list(range(%s,%s)))" % (x, nb, nd)):
-                oksum = True
-        if t in ("%s.flatten(%s).sum(-1)" % (x, nb), "%s.flatten(start_dim=%s).sum(-1)" % (x, nb), "%s.flatten(%s).sum(dim=-1)" % (x, nb)):
-            oksum = True
-    if oksum:
-        res.ok("sum_except_batch: sum over range(num_batch_dims, ndim)")
-    else:
-        res.fail(Finding("UT-RESHAPE", fi.module, fi.qualname, fi.node, "sum_except_batch must reduce exactly the dimensions range(num_batch_dims, x.ndimension())", construct="reduction range of sum_except_batch"))
-    d = [b for b in fi.params() if b[0] == nb][0][1]
+    x, nb = [a for a, _ in fi.params()][:2]
+    n_ok = 0
+    for r in range(0, max_rank + 1):
+        for k in range(0, r + 1):
+            lay = _atoms(r)
+            tag = "sum_except_batch(x of rank %d, num_batch_dims=%d)" % (r, k)
+            try:
+                ev, out = run(fi, {x: lay}, {nb: k})
+            except Unknown as u:
+                res.undecide(tag, str(u))
+                continue
+            except Mismatch as m:
+                fail(fi, "layout of sum_except_batch", "%s: %s" % (tag, m.msg))
+                continue
+            except RaisesExc as ex:
+                fail(fi, "sum_except_batch raises", "%s raises %s for a valid argument" % (tag, ex.exc))
+                continue
+            if isinstance(out, tuple) and out and out[0] == "py":
+                res.undecide(tag, "does not return a tensor")
+                continue
+            summed = sorted(a[0] for op, atoms in ev.reduced if op == "sum" for a in atoms)
+            other = [op for op, atoms in ev.reduced if op != "sum" and atoms]
+            want_sum = sorted(a[0] for g in lay[k:] for a in g)
+            if _labels(out) != _labels(lay[:k]) or summed != want_sum or other:
+                why = ""
+                if ev.empty_dim_reductions:
+                    why = " -- the list of dims handed to `%s` is empty here, and a reduction over an empty list of dims reduces over EVERY axis (torch.sum(x, dim=[]) is torch.sum(x))" % norm_text(ev.empty_dim_reductions[0])[:50]
+                fail(fi, "sum_except_batch keeps the batch axes" if ev.empty_dim_reductions else "reduction range of sum_except_batch", "%s returns axes %s after summing over %s; it must keep the %d batch ax%s %s and sum over exactly %s%s" % (tag, show(out), summed or "nothing", k, "is" if k == 1 else "es", show(lay[:k]), want_sum or "nothing", why))
+            else:
+                n_ok += 1
+    if n_ok:
+        res.ok("sum_except_batch: %d (rank, num_batch_dims) combinations keep the batch axes and sum the rest" % n_ok)
+    d = [b_ for b_ in fi.params() if b_[0] == nb][0][1]
     if d is not None and const_number(d) == 1:
         res.ok("sum_except_batch: num_batch_dims defaults to 1")
     else:
         res.fail(Finding("UT-RESHAPE", fi.module, fi.qualname, fi.node, "num_batch_dims must default to 1 (callers rely on it)", construct="default of num_batch_dims"))
+
+    # ---- merge_leading_dims -----------------------------------------------------------------------
+    fi = _fn(p, TU, "merge_leading_dims")
+    x, kname = [a for a, _ in fi.params()][:2]
+    n_ok = 0
+    for r in range(1, max_rank + 1):
+        for k in range(1, r + 2):
+            lay = _atoms(r)
+            tag = "merge_leading_dims(x of rank %d, num_dims=%d)" % (r, k)
+            try:
+                ev, out = run(fi, {x: lay}, {kname: k})
+            except Unknown as u:
+                res.undecide(tag, str(u))
+                continue
+            except Mismatch as m:
+                fail(fi, "layout of merge_leading_dims", "%s: %s" % (tag, m.msg))
+                continue
+            except RaisesExc as ex:
+                if k > r and ex.exc == "ValueError":
+                    n_ok += 1
+                else:
+                    fail(fi, "errors of merge_leading_dims", "%s raises %s%s" % (tag, ex.exc, "; more leading dims than the tensor has must be a ValueError" if k > r else " for a valid argument"))
+                continue
+            if k > r:
+                fail(fi, "errors of merge_leading_dims", "%s must raise ValueError (more leading dims than the tensor has)" % tag)
+                continue
+            want = (tuple(a for g in lay[:k] for a in g),) + tuple(lay[k:])
+            if isinstance(out, tuple) and out and out[0] == "py" or _labels(out) != _labels(want) or ev.reduced:
+                fail(fi, "layout of merge_leading_dims", "%s returns %s; it must merge the first %d axes in order and keep the rest: %s" % (tag, show(out) if not (out and out[0] == "py") else out, k, show(want)))
+            else:
+                n_ok += 1
+    if n_ok:
+        res.ok("merge_leading_dims: %d (rank, num_dims) combinations: first num_dims axes merged row-major, rest kept; ValueError beyond the rank" % n_ok)
+
+    # ---- split_leading_dim: the inverse of a merge ---------------------------------------------------
+    fi = _fn(p, TU, "split_leading_dim")
+    x, shp = [a for a, _ in fi.params()][:2]
+    n_ok = 0
+    for r in range(1, max_rank):
+        for m in (1, 2, 3):
+            parts = tuple(("b%d" % i, "S%d" % i, False) for i in range(m))
+            rest = _atoms(r - 1, "c")
+            lay = (parts,) + rest
+            for wild in [None] + list(range(m)):
+                shape_val = [(-1 if i == wild else Sz([parts[i][1]])) for i in range(m)]
+                tag = "split_leading_dim(x = %s, shape=%s)" % (show(lay), ["-1" if v == -1 else v.syms[0] for v in shape_val])
+                try:
+                    ev, out = run(fi, {x: lay}, {shp: shape_val})
+                except Unknown as u:
+                    res.undecide(tag, str(u))
+                    continue
+                except Mismatch as mm:
+                    fail(fi, "layout of split_leading_dim", "%s: %s" % (tag, mm.msg))
+                    continue
+                except RaisesExc as ex:
+                    fail(fi, "split_leading_dim raises", "%s raises %s for a valid argument" % (tag, ex.exc))
+                    continue
+                want = tuple((a,) for a in parts) + rest
+                if isinstance(out, tuple) and out and out[0] == "py" or _labels(out) != _labels(want) or ev.reduced:
+                    fail(fi, "layout of split_leading_dim", "%s returns %s; the leading axis must be split into the given shape, in order, and the other axes kept (the inverse of merge_leading_dims): %s" % (tag, show(out), show(want)))
+                else:
+                    n_ok += 1
+    if n_ok:
+        res.ok("split_leading_dim: %d combinations: the inverse regrouping of merge_leading_dims" % n_ok)
+
+    # ---- repeat_rows ---------------------------------------------------------------------------------
+    fi = _fn(p, TU, "repeat_rows")
+    x, n = [a for a, _ in fi.params()][:2]
+    n_ok = 0
+    for r in range(1, max_rank):
+        lay = _atoms(r)
+        tag = "repeat_rows(x of rank %d, num_reps=n)" % r
+        try:
+            ev, out = run(fi, {x: lay}, {n: Sz(["n"])})
+        except Unknown as u:
+            res.undecide(tag, str(u))
+            continue
+        except Mismatch as m:
+            fail(fi, "layout of repeat_rows", "%s: %s" % (tag, m.msg))
+            continue
+        except RaisesExc as ex:
+            fail(fi, "repeat_rows raises", "%s raises %s for a valid argument" % (tag, ex.exc))
+            continue
+        got = _labels(out) if not (out and out[0] == "py") else None
+        want = ((lay[0][0][0], "rep[n]"),) + _labels(lay[1:])
+        if got != want:
+            tiled = got is not None and got and got[0] == ("rep[n]", lay[0][0][0])
+            fail(fi, "layout of repeat_rows", "%s returns %s; every row must be repeated consecutively (r0,r0,..,r1,r1,..): %s%s" % (tag, show(out) if got is not None else out, "[(a0*rep[n])%s]" % "".join(", " + g[0] for g in _labels(lay[1:])), " -- this tiles the whole tensor instead (r0,r1,..,r0,r1,..)" if tiled else ""))
+        else:
+            n_ok += 1
+    if n_ok:
+        res.ok("repeat_rows: %d ranks: [R, ...] -> [R (x) n, ...], each row repeated consecutively" % n_ok)
     return res
 
 
@@ -103,8 +199,10 @@ def search_rule(ctx):
     params = [a for a, _ in fi.params()]
     knots, x = params[0], params[1]
     eps = params[2] if len(params) > 2 else None
+    from ..canon import canon
+
     for path in _single_return(fi):
-        r = path.ret
+        r = canon(path.ret)  # one spelling: torch.f(receiver, positional arguments), operators, oriented comparisons
         okc = False
         why = "not `torch.sum(inputs[..., None] >= knots, dim=-1) - 1`"
         from ..astutil import as_reduction
@@ -123,16 +221,17 @@ def search_rule(ctx):
                 op = type(c.ops[0])
                 # knots <= x[..., None] is the same comparison written from the other side
                 flip = {ast.LtE: ast.GtE, ast.Lt: ast.Gt, ast.GtE: ast.LtE, ast.Gt: ast.Lt}
-                if norm_text(rr).replace(" ", "") in ("%s[...,None]" % x, "%s.unsqueeze(-1)" % x) and op in flip:
+                xforms = ("%s[...,None]" % x, "%s.unsqueeze(-1)" % x, "torch.unsqueeze(%s,-1)" % x)
+                if norm_text(rr).replace(" ", "") in xforms and op in flip:
                     l, rr, op = rr, l, flip[op]
                 lt = norm_text(l).replace(" ", "")
-                is_x = lt in ("%s[...,None]" % x, "%s.unsqueeze(-1)" % x)
+                is_x = lt in xforms
                 core, stores = strip_stores(rr)
                 shifted_all = False
                 if isinstance(core, ast.BinOp) and isinstance(core.op, ast.Add) and eps is not None and eps in (norm_text(core.left), norm_text(core.right)):
                     core = core.right if norm_text(core.left) == eps else core.left
                     shifted_all = True
-                core_is_knots = isinstance(core, ast.Name) and core.id == knots or (isinstance(core, ast.Call) and norm_text(core.func) in ("%s.clone" % knots,) and not core.args)
+                core_is_knots = isinstance(core, ast.Name) and core.id == knots or (isinstance(core, ast.Call) and norm_text(core.func) in ("%s.clone" % knots,) and not core.args) or (isinstance(core, ast.Call) and norm_text(core.func) == "torch.clone" and len(core.args) == 1 and norm_text(core.args[0]) == knots)
                 if shifted_all and core_is_knots:
                     recognised = True
                     why = "the epsilon is added to every knot, not only the last one: all bin edges move and inputs on a knot fall into the bin to its left"
@@ -202,8 +301,20 @@ def mask_rule(ctx):
             idx, val = stores[0]
             it = norm_text(idx).replace(" ", "")
             vt = norm_text(val).replace(" ", "")
-            if it in ("slice(0if%selse1,None,2)" % even, "(0if%selse1)::2" % even, "0if%selse1::2" % even) or (isinstance(idx, ast.Slice) and idx.upper is None and const_number(idx.step) == 2 and norm_text(idx.lower).replace(" ", "") == "0if%selse1" % even):
-                okst = vt.endswith("+1") or vt == "1"
+            sl = idx
+            if isinstance(sl, ast.Slice) and sl.upper is None and const_number(sl.step) == 2:
+                from ..shapeeval import ShapeEval
+                from ..axes import Unknown as _Unk
+
+                try:
+                    starts = []
+                    for ev_ in (True, False):
+                        lo = 0 if sl.lower is None else ShapeEval({}, {even: ev_}, p, fi.module).py(sl.lower)
+                        starts.append(int(lo) if isinstance(lo, (bool, int)) else None)
+                    if starts == [0, 1]:
+                        okst = vt.endswith("+1") or vt == "1"
+                except _Unk:
+                    pass
         if zero and okst:
             res.ok("create_alternating_binary_mask: zeros; mask[(0 if even else 1)::2] += 1")
         else:
@@ -260,70 +371,99 @@ def mask_rule(ctx):
     return res
 
 
+PRED_DOMAIN = [-3, -1, 0, 1, 2, 3, 4, 5, 6, 7, 8, 12, 16, 24, 32, True, False, 2.0, 2.5, -1.5, 0.0, None, "3", "", [3], (2,)]
+
+
+def _pred_spec(name, v):
+    is_int = isinstance(v, int)
+    if name == "is_bool":
+        return isinstance(v, bool)
+    if name == "is_int":
+        return is_int
+    if name == "is_positive_int":
+        return is_int and v > 0
+    if name == "is_nonnegative_int":
+        return is_int and v >= 0
+    if name == "is_power_of_two":
+        return is_int and v > 0 and (int(v) & (int(v) - 1)) == 0
+    raise KeyError(name)
+
+
 def pred_rule(ctx):
+    """UT-PRED by evaluation of the predicates' own source (the checker's evaluator,
+    nfstatic/shapeeval.py -- no code of the repository is run) on a domain of ints of both signs,
+    bools, floats with and without a fractional part, None, strings and sequences, against the
+    documented meaning; and of the four validating helpers on invalid counts (TypeError)."""
+    from ..axes import Mismatch, Unknown
+    from ..shapeeval import ShapeEval, RaisesExc, Sz
+
     p = ctx.p
-    res = RuleResult("UT-PRED", "type-check predicates have their documented structure, and argument validation (TypeError) dominates use in the helpers")
-    want = {
-        "is_bool": ("isinstance(x, bool)",),
-        "is_int": ("isinstance(x, int)",),
-        "is_positive_int": ("is_int(x) and x > 0", "is_int(x) and 0 < x"),
-        "is_nonnegative_int": ("is_int(x) and x >= 0", "is_int(x) and 0 <= x"),
-    }
-    for name, forms in want.items():
+    res = RuleResult("UT-PRED", "the type-check predicates mean what they say for ints of both signs, bools, floats, None, strings and sequences; the helpers reject invalid counts with TypeError")
+    thorough = getattr(ctx, "tier", "quick") == "thorough"
+    domain = list(PRED_DOMAIN) + (list(range(-20, 70)) if thorough else [])
+    for name in ("is_bool", "is_int", "is_positive_int", "is_nonnegative_int", "is_power_of_two"):
         fi = _fn(p, TC, name)
         arg = fi.params()[0][0]
-        rets = [n for n in ast.walk(fi.node) if isinstance(n, ast.Return)]
-        got = norm_text(rets[0].value) if len(rets) == 1 else None
-        if got is not None and got.replace(arg, "x") in forms:
-            res.ok("%s(x) = %s" % (name, forms[0]))
+        bad = None
+        undec = None
+        n_ok = 0
+        for v in domain:
+            ev = ShapeEval({}, {arg: v}, p, fi.module)
+            ev.builtin_predicates = False
+            try:
+                r = ev.run(fi)
+                got = bool(r[1]) if isinstance(r, tuple) and len(r) == 2 and r[0] == "py" and isinstance(r[1], (bool, int)) else ("value", r)
+            except RaisesExc as ex:
+                got = ("raises", ex.exc)
+            except (Unknown, Mismatch) as u:
+                undec = "%s(%r): %s" % (name, v, u)
+                continue
+            want = _pred_spec(name, v)
+            if got != want:
+                bad = bad or (v, got, want)
+            else:
+                n_ok += 1
+        if bad is not None:
+            v, got, want = bad
+            res.fail(Finding("UT-PRED", fi.module, fi.qualname, fi.node, "%s(%r) evaluates to %s; the documented meaning gives %s" % (name, v, got, want), construct="meaning of " + name))
+        elif undec is not None:
+            res.undecide(name, undec)
         else:
-            res.fail(Finding("UT-PRED", fi.module, fi.qualname, fi.node, "%s must be `%s`; found `%s`" % (name, forms[0], got), construct="body of " + name))
-    fi = _fn(p, TC, "is_power_of_two")
-    arg = fi.params()[0][0]
-    okp = False
-    for path in paths_of(fi.node):
-        if path.kind != "return":
-            continue
-        atoms = set()
-        for et, raw, pol in path.conds:
-            atoms |= cond_atoms(raw, pol)
-        t = norm_text(path.ret).replace(" ", "")
-        if "is_positive_int(%s)" % arg in atoms:
-            okp = t in ("not%s&%s-1" % (arg, arg), "%s&%s-1==0" % (arg, arg), "not(%s&(%s-1))" % (arg, arg), "(%s&(%s-1))==0" % (arg, arg), "%s&(%s-1)==0" % (arg, arg))
-            if not okp:
-                res.fail(Finding("UT-PRED", fi.module, fi.qualname, path.ret_node, "is_power_of_two must test n & (n - 1) == 0 for positive ints"))
-        else:
-            if not (isinstance(path.ret, ast.Constant) and path.ret.value is False):
-                res.fail(Finding("UT-PRED", fi.module, fi.qualname, path.ret_node, "is_power_of_two must be False for anything that is not a positive int"))
-                okp = None
-    if okp:
-        res.ok("is_power_of_two = is_positive_int(n) and not n & (n - 1)")
-    # validation dominates use
-    checks = [("tile", "n", "is_positive_int"), ("sum_except_batch", "num_batch_dims", "is_nonnegative_int"), ("merge_leading_dims", "num_dims", "is_positive_int"), ("repeat_rows", "num_reps", "is_positive_int")]
-    for fname, param, pred in checks:
+            res.ok("%s agrees with its documented meaning on %d values" % (name, n_ok))
+    # validation in the helpers: invalid counts end in TypeError
+    x1 = ((("a0", "A0", False),), (("a1", "A1", False),))
+    checks = [("tile", "n", [0, -1, 2.5, "2", None]), ("sum_except_batch", "num_batch_dims", [-1, 1.0, "1", None]), ("merge_leading_dims", "num_dims", [0, -1, 2.5, "1", None]), ("repeat_rows", "num_reps", [0, -2, 1.5, "3", None])]
+    for fname, param, invalid in checks:
         fi = _fn(p, TU, fname)
-        guard_line = None
-        for st, pc, ng in walk_pc(fi.node.body):
-            if isinstance(st, ast.Raise) and "TypeError" in norm_text(st.exc):
-                atoms = pc_atoms(pc)
-                for a in atoms:
-                    if a.startswith("not(") and "%s(%s)" % (pred, param) in a:
-                        r = None
-                        for t, pol in pc:
-                            for c in ast.walk(t):
-                                if isinstance(c, ast.Call) and norm_text(c.func).endswith(pred):
-                                    r = p.resolve_expr(fi.module, c.func)
-                        if getattr(r, "name", None) == pred:
-                            guard_line = st.lineno
-        if guard_line is None:
-            res.fail(Finding("UT-PRED", fi.module, fi.qualname, fi.node, "%s does not raise TypeError unless %s(%s)" % (fname, pred, param), construct="validation of %s in %s" % (param, fname)))
+        params = [a for a, _ in fi.params()]
+        if param not in params:
+            res.undecide(fname, "parameter %s missing" % param)
             continue
-        early = [n for n in ast.walk(fi.node) if isinstance(n, ast.Name) and n.id == param and n.lineno < guard_line - 1 and not isinstance(getattr(n, "_parent", None), ast.arg)]
-        early = [n for n in early if "%s(%s)" % (pred, param) not in norm_text(getattr(n, "_parent", n))]
-        if early:
-            res.fail(Finding("UT-PRED", fi.module, fi.qualname, early[0], "`%s` is used before it is validated" % param))
+        tensor_param = params[0]
+        bad = None
+        undec = None
+        for v in invalid:
+            ev = ShapeEval({tensor_param: x1}, {param: v}, p, fi.module)
+            ev.builtin_predicates = False
+            try:
+                ev.run(fi)
+                got = "returns a result"
+            except RaisesExc as ex:
+                got = None if ex.exc == "TypeError" else "raises %s" % ex.exc
+            except (Unknown, Mismatch) as u:
+                if getattr(u, "past_guards", False) or isinstance(u, Mismatch):
+                    got = "passes every check and is used (%s)" % str(u)[:60]
+                else:
+                    undec = "%s(.., %s=%r): %s" % (fname, param, v, str(u)[:80])
+                    continue
+            if got is not None:
+                bad = bad or (v, got)
+        if bad is None and undec is not None:
+            res.undecide(fname, undec)
+        elif bad is not None:
+            res.fail(Finding("UT-PRED", fi.module, fi.qualname, fi.node, "%s(.., %s=%r) %s; it must raise TypeError" % (fname, param, bad[0], bad[1]), construct="validation of %s in %s" % (param, fname)))
         else:
-            res.ok("%s: TypeError unless %s(%s), before use" % (fname, pred, param))
+            res.ok("%s: TypeError for %s in %s" % (fname, param, invalid))
     return res
 
 
@@ -332,9 +472,12 @@ def form_rule(ctx):
     res = RuleResult("UT-FORM", "cbrt = sign(x) * exp(log|x| / 3); logabsdet = slogdet(x)[1] (sign handling present; values not checked)")
     fi = _fn(p, TU, "cbrt")
     x = fi.params()[0][0]
+    from ..canon import canon_text, canon_of_source
+
     for path in _single_return(fi):
-        t = norm_text(path.ret).replace(" ", "")
+        t = canon_text(path.ret).replace(" ", "")
         forms = ("torch.sign(%s)*torch.exp(torch.log(torch.abs(%s))/3.0)" % (x, x), "torch.sign(%s)*torch.exp(torch.log(torch.abs(%s))/3)" % (x, x), "torch.sign(%s)*torch.abs(%s)**(1/3)" % (x, x), "torch.sign(%s)*torch.pow(torch.abs(%s),1/3)" % (x, x), "torch.sign(%s)*torch.abs(%s).pow(1/3)" % (x, x), "torch.sign(%s)*torch.abs(%s).pow(1.0/3.0)" % (x, x))
+        forms = tuple(canon_of_source(f).replace(" ", "") for f in forms)
         if t in forms:
             res.ok("cbrt: sign(x) * |x|^(1/3)")
         else:
@@ -352,7 +495,7 @@ def form_rule(ctx):
         okl = False
         if is_component(r) and isinstance(r.args[0], ast.Call) and norm_text(r.args[0].func) in ("torch.slogdet", "torch.linalg.slogdet") and r.args[1].value == 1 and norm_text(r.args[0].args[0]) == x:
             okl = True
-        t = norm_text(r).replace(" ", "")
+        t = canon_text(r).replace(" ", "")
         if t in ("torch.slogdet(%s)[1]" % x, "torch.linalg.slogdet(%s)[1]" % x, "torch.slogdet(%s).logabsdet" % x, "torch.linalg.slogdet(%s).logabsdet" % x, "torch.log(torch.abs(torch.det(%s)))" % x):
             okl = True
         if okl:
